@@ -226,6 +226,42 @@ def fold_call(crate, term):
     return v if isinstance(v, int) else None
 
 
+def boundary_table(ctx, c, b):
+    """A function of one integer (of any width) into Result<SafeLong, _>, evaluated on the boundary values of the safe range
+    and of its parameter type (decision-table interpreter; casts wrap, TryFrom narrows or fails): True when it returns
+    Ok(SafeLong(v)) exactly for v in range and Err otherwise, False when some probe differs, None when it leaves the
+    interpretable fragment."""
+    from .. import minterp as _mi
+    p = int_prim(b.local_ty(1)) if b.argc == 1 else None
+    if p is None:
+        return None
+    bits = consteval.INT_BITS[p]
+    signed = p.startswith("i")
+    tmin, tmax = (-(1 << (bits - 1)), (1 << (bits - 1)) - 1) if signed else (0, (1 << bits) - 1)
+    cands = [CMIN - 1, CMIN, CMIN + 1, -1, 0, 1, CMAX - 1, CMAX, CMAX + 1, -(1 << 63), (1 << 63) - 1, 1 << 63, (1 << 64) - 1, 1 << 64, (1 << 64) + CMAX, (1 << 127) - 1, -(1 << 127),
+             (1 << 128) - 1, (1 << 128) - CMAX, (1 << 128) - CMAX - 1, (1 << 64) - CMAX, tmin, tmax, tmax - CMAX, tmax - CMAX + 1]
+    probes = sorted({v for v in cands if tmin <= v <= tmax})
+    I_ = _mi.Interp(ctx.F, c, inline=lambda d_, rid: rid.startswith("conjure_object::") and rid != b.id, max_depth=4)
+    try:
+        for v_ in probes:
+            r_ = I_.run(b, [v_])
+            if not (_mi.is_adt(r_) and r_[1] == "core::result::Result"):
+                return None
+            is_ok = r_[2] == 0
+            payload = r_[3][0] if is_ok and r_[3] else None
+            val_ok = _mi.is_adt(payload) and payload[1] == SL and payload[3] and payload[3][0] == v_
+            if (CMIN <= v_ <= CMAX) != bool(is_ok and val_ok) or (not (CMIN <= v_ <= CMAX) and r_[2] != 1):
+                return False
+    except _mi.Unsupported:
+        return None
+    return True
+
+
+def _int_range(p):
+    bits = consteval.INT_BITS[p]
+    return (-(1 << (bits - 1)), (1 << (bits - 1)) - 1) if p.startswith("i") else (0, (1 << bits) - 1)
+
+
 def int_prim(t):
     return t.get("prim") if t and t.get("prim") in consteval.INT_BITS else None
 
@@ -357,6 +393,9 @@ def run(ctx):
                                   instance=f"{b.name}: Ok returned exactly for [{CMIN}, {CMAX}]")
                 else:
                     detail = f"guard interval [{lo}, {hi}], unknown conditions {unknown}, reassigned={reassigned}; required exactly [{CMIN}, {CMAX}]"
+        if kind is None and b.argc == 1 and int_prim(b.local_ty(1)) and tystr(b.local_ty(1)) != "i64" and c.name == "conjure_object" and boundary_table(ctx, c, b) is True:
+            kind, detail = "K5", f"selected by the range test: Ok(SafeLong(v)) exactly for {CMIN} <= v <= {CMAX} on the boundary probes of {tystr(b.local_ty(1))}, Err otherwise"
+            guarded += 1
         if kind is None and b.argc == 1 and tystr(b.local_ty(1)) == "i64" and c.name == "conjure_object":
             # K5 the value is built eagerly and *selected* by the range test (`in_range.then_some(SafeLong(v)).ok_or(..)`): the
             # function is evaluated on the boundary values; it must return Ok(SafeLong(v)) exactly for v in range, so an
@@ -388,6 +427,20 @@ def run(ctx):
     ctx.obligation("O2 every construction site is constant / widening / copy / range-guarded", all_ok and len(sites) >= 10 and guarded >= 1,
                    f"{len(sites)} sites")
     # O3 exact bounds of the public min/max
+    # (the public bounds may be built elsewhere — associated consts — and only returned here: evaluate the functions themselves)
+    from .. import minterp as _mi2
+    co_ = ctx.F.crate("conjure_object")
+    for nm_ in ("min_value", "max_value"):
+        if nm_ in bounds_seen:
+            continue
+        for fb_ in co_.bodies:
+            if fb_.name == nm_ and fb_.argc == 0 and fb_.kind in ("fn", "assoc_fn") and ty_adt(fb_.local_ty(0)) == SL:
+                try:
+                    v_ = _mi2.Interp(ctx.F, co_, inline=lambda d_, rid: True, max_depth=3).run(fb_, [])
+                    if _mi2.is_adt(v_) and v_[1] == SL and v_[3] and isinstance(v_[3][0], int) and not isinstance(v_[3][0], bool):
+                        bounds_seen[nm_] = v_[3][0]
+                except _mi2.Unsupported:
+                    pass
     mn, mx = bounds_seen.get("min_value"), bounds_seen.get("max_value")
     o3 = ctx.check(mn == CMIN and mx == CMAX, "O3", "conjure-object/src/safe_long.rs", "bounds|min-max",
                    f"min_value/max_value fold to {mn}/{mx}, expected {CMIN}/{CMAX}", instance=f"min_value = {mn}, max_value = {mx}")
@@ -436,8 +489,8 @@ def run(ctx):
                     src_p = op_place(r["cast"])
                     src = int_prim(x.local_ty(place_local(src_p))) if src_p is not None else None
                     to = int_prim(r["to"])
-                    lossless = to == "i64" and src in NARROW_OK["i64"]
-                    if not lossless and to in ("i64",):
+                    lossless = (to == "i64" and src in NARROW_OK["i64"]) or (src and to and _int_range(src)[0] >= _int_range(to)[0] and _int_range(src)[1] <= _int_range(to)[1])
+                    if not lossless and to in consteval.INT_BITS and src in consteval.INT_BITS:
                         o5 = False
                         ctx.violation("O5", x.loc(s["ln"]), f"{b.id}|lossy-cast", f"{b.id}: `{src} as {to}` on a route into the checked constructor: out-of-range input could wrap into range instead of being rejected")
         ctx.ok("O5", b.loc(), f"{b.id}: reaches SafeLong::new without lossy casts")
@@ -449,6 +502,24 @@ def run(ctx):
             eb_, fam_ = inline.expanded_family(co, b, depth=2, pred=lambda cb: cb.d.get("vis") != "pub" and cb.file == b.file and cb.name != "new")
             tf = [t for x in fam_ for _, t in x.calls() if (t["call"]["def"] == "core::convert::TryFrom::try_from" and tystr(t["call"]["substs"][0]) == "i64")
                   or (t["call"]["def"] == "core::convert::TryInto::try_into" and len(t["call"]["substs"]) >= 2 and tystr(t["call"]["substs"][1]) == "i64")]
+            src_t = tystr(strip_refs(b.local_ty(1))) if b.argc == 1 else ""
+            if src_t in ("str", "alloc::string::String"):
+                # a text source: the conversion is the FromStr route (decided there)
+                fs_ = [t for x in fam_ for _, t in x.calls() if (t["call"]["def"] == "core::str::traits::FromStr::from_str" and ty_adt(t["call"]["substs"][0]) == SL)
+                       or (t["call"].get("name") == "parse" and "core::str" in t["call"]["def"] and any(ty_adt(x_) == SL for x_ in t["call"]["substs"]))]
+                o5 &= ctx.check(len(fs_) == 1, "O5", b.loc(), f"{b.id}|text-route", f"{b.id}: a conversion from text must delegate to SafeLong's FromStr", instance=f"{b.id}: TryFrom<{src_t}> -> FromStr")
+                continue
+            bt_all = boundary_table(ctx, co, b) if int_prim(b.local_ty(1) if b.argc == 1 else None) else None
+            if bt_all is False:
+                o5 &= ctx.check(False, "O5", b.loc(), f"{b.id}|boundary-table", f"{b.id}: does not return Ok(SafeLong(v)) exactly for the in-range values of {src_t} (boundary values of the source type evaluated)")
+                continue
+            if len(tf) != 1:
+                # not narrowed through i64::try_from: decided on the boundary values of the source type instead; or a delegation
+                # to another TryFrom of SafeLong after a lossless widening
+                bt_ = boundary_table(ctx, co, b)
+                o5 &= ctx.check(bt_ is True, "O5", b.loc(), f"{b.id}|i64-try_from", f"{b.id}: narrowing must go through i64::try_from / try_into::<i64>, or return Ok(SafeLong(v)) exactly for the in-range values of its source type "
+                                f"(boundary table: {'differs' if bt_ is False else 'not evaluable'})", instance=f"{b.id}: boundary table over {src_t}")
+                continue
             o5 &= ctx.check(len(tf) == 1, "O5", b.loc(), f"{b.id}|i64-try_from", f"{b.id}: narrowing must go through i64::try_from / try_into::<i64>", instance=f"{b.id}: i64::try_from")
         if b.trait == "core::str::traits::FromStr" and ty_adt(b.self_ty) == SL:
             # str::parse::<i64>() or its definition <i64 as FromStr>::from_str(), directly or in a private helper
